@@ -41,6 +41,9 @@ import (
 	"github.com/theory/sqljson/path/ast"
 )
 
+// hookLex identifies the verification hook point at the top of Lex.
+const hookLex = 1
+
 // position is a value that represents a source position.
 type position struct {
 	Offset int // byte offset, starting at 0
@@ -249,6 +252,7 @@ func (l *lexer) pos() (pos position) {
 // token will be stored in lval.str. It reports scanning errors (read
 // and token errors) by calling l.Error.
 func (l *lexer) Lex(lval *pathSymType) int {
+	verifHook(hookLex)
 	ch := l.peek()
 
 	// reset token text position
